@@ -176,9 +176,17 @@ def pattern_values(p):
 
 def stmt(s):
     if isinstance(s, ast.Assign):
+        if len(s.targets) == 1 and isinstance(s.targets[0], ast.Attribute) and isinstance(s.targets[0].value, ast.Name) \
+                and s.targets[0].value.id != "self":
+            return f"(SAttrAssign {cstr(s.targets[0].value.id)} {cstr(s.targets[0].attr)} {expr(s.value)})"
         if len(s.targets) != 1 or not isinstance(s.targets[0], ast.Name):
             fail(s, "assignment to a non-name target")
         return f"(SAssign {cstr(s.targets[0].id)} {expr(s.value)})"
+    if isinstance(s, ast.AugAssign):
+        # statistics counters of the abstract interpreter: no effect on values or types
+        if ast.unparse(s.target).startswith("Abstract.analysis["):
+            return "SPass"
+        fail(s, "augmented assignment")
     if isinstance(s, ast.AnnAssign):
         if not isinstance(s.target, ast.Name) or s.value is None:
             fail(s, "annotated assignment shape")
@@ -203,13 +211,41 @@ def stmt(s):
     fail(s, f"statement node {type(s).__name__}")
 
 
+def const_value(n):
+    """a constant default value as a PyMini value term, or None"""
+    if isinstance(n, ast.Constant):
+        v = n.value
+        if v is None:
+            return "VNone"
+        if isinstance(v, bool):
+            return f"(VBool {'true' if v else 'false'})"
+        if isinstance(v, int):
+            return f"(VInt {cz(v)})"
+        if isinstance(v, str):
+            return f"(VStr {cstr(v)})"
+    return None
+
+
+def defaults_of(fn):
+    a = fn.args
+    out = []
+    nd = len(a.defaults)
+    if nd:
+        for arg, d in zip(a.args[-nd:], a.defaults):
+            cv = const_value(d)
+            if cv is not None:
+                out.append(f"({cstr(arg.arg)}, {cv})")
+    return clist(out)
+
+
 def fundef(fn):
     a = fn.args
     if a.vararg or a.kwarg or a.kwonlyargs or a.posonlyargs:
         fail(fn, f"function {fn.name} with non-plain parameters")
-    # defaults are ignored: a call that omits a defaulted parameter fails in PyMini (closed)
+    # non-constant defaults are ignored: a call that omits such a parameter fails in PyMini (closed)
     params = [x.arg for x in a.args]
-    return f"{{| f_params := {clist([cstr(p) for p in params])}; f_body := {stmts(fn.body)} |}}"
+    return (f"{{| f_params := {clist([cstr(p) for p in params])}; f_defaults := {defaults_of(fn)}; "
+            f"f_body := {stmts(fn.body)} |}}")
 
 
 def try_fundef(fn):
@@ -219,7 +255,7 @@ def try_fundef(fn):
         return fundef(fn), None
     except ExtractError as e:
         params = [x.arg for x in fn.args.args]
-        return (f"{{| f_params := {clist([cstr(p) for p in params])}; "
+        return (f"{{| f_params := {clist([cstr(p) for p in params])}; f_defaults := []; "
                 f"f_body := [SRaise \"PyMini:untranslated\"] |}}"), str(e)
 
 
@@ -314,6 +350,14 @@ def recognise_ctor(c, init, info):
         return None
     body = [s for s in init.body if not is_docstring(s)]
     params = [a.arg for a in init.args.args][1:]
+    src = [ast.unparse(s0).replace("\n", " ; ") for s0 in body]
+    # audit/abstract.py: Abstract(cls=None) re-classes itself; AbstractInteger/Boolean(input=None, value=None)
+    if params == ["cls"] and src == ["self.value = None", "if cls is not None: ;     self.__class__ = cls"]:
+        return "CtorReclass"
+    if params == ["input", "value"] and src[:3] == ["super().__init__()", "self.input = input",
+                                                     "self.value = self.input._value() if input is not None else value"] \
+            and len(src) == 4 and src[3].startswith("if input is not None:"):
+        return "CtorInputValue"
     # literal: value = NORM(value); super().__init__(Literal(value=value, source_ref=..), BaseType.X, Mode.Y); self.value = value
     if len(body) == 3 and params == ["value"]:
         s0, s1, s2 = body
@@ -451,7 +495,11 @@ def emit_class_table(mods, skip_funcs=(), extra_consts=None, notes=None):
             if err:
                 untranslated.append(err)
             ms.append(f"({cstr(f.name)}, {fd})")
-        classes.append(dict(name=c.name, methods=ms, classmethods=cms, ctor=ctor, dataclass=dataclass,
+        meta = ""
+        for k in c.keywords:
+            if k.arg == "metaclass" and isinstance(k.value, ast.Name):
+                meta = k.value.id
+        classes.append(dict(name=c.name, methods=ms, classmethods=cms, ctor=ctor, dataclass=dataclass, meta=meta,
                             dataclass_eq=dataclass and "__eq__" not in names, info=info, mod=m.rel))
     by_name = {c["name"]: c for c in classes}
     out_classes = []
@@ -505,7 +553,8 @@ def emit_class_table(mods, skip_funcs=(), extra_consts=None, notes=None):
             f"     c_methods := {clist(c['methods'])};\n"
             f"     c_classmethods := {clist(c['classmethods'])}; c_ctor := {ctor};\n"
             f"     c_dataclass := {'true' if c['dataclass'] else 'false'}; "
-            f"c_dataclass_eq := {'true' if c['dataclass_eq'] else 'false'} |}}")
+            f"c_dataclass_eq := {'true' if c['dataclass_eq'] else 'false'}; "
+            f"c_meta := {cstr(next((by_name[b]['meta'] for b in mro if b in by_name and by_name[b]['meta']), ''))} |}}")
     for m in mods:
         CUR_FILE = m.rel
         for f in m.funcs:
@@ -876,6 +925,20 @@ def gen_source_ref(repo, outdir, notes):
     write_if_changed(os.path.join(outdir, "GenSourceRef.v"), text)
 
 
+def gen_abstract(repo, outdir, notes):
+    """audit/abstract.py: the audit classes (metaclass ordering, operator bodies)"""
+    mods = [Module(repo, "nada_dsl/audit/abstract.py")]
+    local = []
+    t = emit_class_table(mods, skip_funcs=("signature",), notes=local)
+    text = HEADER.format(src="audit/abstract.py")
+    text += "Definition classes : list classdef :=\n  " + clist(["\n   " + c for c in t["classes"]]) + ".\n\n"
+    text += "Definition funs : list (string * fundef) :=\n  " + clist(["\n   " + f for f in t["funs"]]) + ".\n\n"
+    text += ("Definition GA : genv := {| g_funs := funs; g_classes := classes; g_enums := [];\n"
+             "  g_enum_methods := []; g_consts := [] |}.\n")
+    text += "Definition untranslated : list string := " + clist([cstr(x.split(': ', 1)[-1][:80]) for x in local]) + ".\n"
+    write_if_changed(os.path.join(outdir, "GenAbstract.v"), text)
+
+
 def gen_classes_all(repo, outdir, notes):
     """Class table of every Nada value class (scalars and collections): MRO, defined methods,
     dataclass-generated __eq__.  Used by C07 (obliviousness)."""
@@ -907,6 +970,7 @@ def main():
         gen_frontend_tables(repo, outdir, notes)
         gen_classes_all(repo, outdir, notes)
         gen_source_ref(repo, outdir, notes)
+        gen_abstract(repo, outdir, notes)
     except (ExtractError, KeyError, StopIteration, AttributeError) as e:
         print(f"EXTRACT-ERROR {e}")
         sys.exit(2)
